@@ -375,7 +375,15 @@ def on_dataclass(instance: Instance, ctx: Context) -> Optional[JSONSchema]:
         properties: dict[str, JSONSchema] = {}
         required = []
         field_schema_overrides = jsonschema_config.get("properties", {})
+        # with omit_none the serializer drops the key of a nullable field whose
+        # value is None, so such a key cannot be required
+        omit_none = instance._self_builder.get_dialect_or_config_option(
+            "omit_none", False
+        )
         for f_name, f_type, has_default, f_default in instance.fields():
+            may_be_omitted = bool(
+                omit_none
+            ) and instance._self_builder.is_field_nullable(f_name, f_type)
             override = field_schema_overrides.get(f_name)
             f_instance = instance.derive(type=f_type, name=f_name)
             if override:
@@ -390,7 +398,7 @@ def on_dataclass(instance: Instance, ctx: Context) -> Optional[JSONSchema]:
             if description:
                 f_schema.description = description
 
-            if not has_default:
+            if not has_default and not may_be_omitted:
                 required.append(f_name)
 
             properties[f_name] = f_schema
